@@ -147,8 +147,21 @@ func (r *Reporter) CaseRand(idx int64) *Rand {
 // replayed one. n is the per-shard case count.
 func (r *Reporter) Cases(n int64, fn func(idx int64, rng *Rand)) {
 	if r.cfg.ReplayCase >= 0 {
-		r.Begin(r.cfg.ReplayCase, "replay")
-		fn(r.cfg.ReplayCase, r.CaseRand(r.cfg.ReplayCase))
+		// VERIF_REPLAY_BEFORE=k also runs the k cases before it (for violations that depend on
+		// what an earlier case left behind, e.g. straggler goroutines)
+		first := r.cfg.ReplayCase
+		if v := os.Getenv("VERIF_REPLAY_BEFORE"); v != "" {
+			if k, err := strconv.ParseInt(v, 10, 64); err == nil && k > 0 {
+				first -= k
+				if first < 0 {
+					first = 0
+				}
+			}
+		}
+		for i := first; i <= r.cfg.ReplayCase; i++ {
+			r.Begin(i, "replay")
+			fn(i, r.CaseRand(i))
+		}
 		return
 	}
 	for i := int64(0); i < n; i++ {
